@@ -82,11 +82,30 @@ Definition int_at (a b : nat) (l : str) : res Z := of_opt EValue (parse_int (sli
 Definition float_at (a b : nat) (l : str) : res Q := of_opt EValue (parse_float (slice a b l)).
 Definition nat_of (z : Z) : nat := Z.to_nat z.
 
+(* Constants of the source that the models use.  They are NOT trusted copies: coq/Gen/C08/Layout.v, regenerated from the
+   current source on every run, proves each of them equal to what harness/c08_layout.py reads off the syntax tree
+   (column slices of the int()/float() calls in source order, readvalues arguments, truncation variables, the file types
+   with a charge correction, the unit factors). *)
+Definition adas2x_cols : list (nat * nat) :=
+  [(3, 5); (13, 22); (1, 5); (6, 10); (17, 26); (1, 5); (12, 21); (28, 37)]%nat.
+Definition adas2x_per_line : nat := 8.
+Definition adf12_cols : list (nat * nat) := [(0, 5); (38, 40); (41, 43)]%nat.
+Definition adf12_head_reads : list nat := [1; 5; 5]%nat.          (* QEFREF; the five references; the five counts *)
+Definition adf12_per_line : nat := 6.
+(* (slots read, index of the count that truncates them) for ENER QENER TIEV QTIEV DENSI QDENSI ZEFF QZEFF BMAG QBMAG,
+   counts unpacked as nbeam, nti, ndi, nze, nb *)
+Definition adf12_sections : list (nat * nat) :=
+  [(24, 0); (24, 0); (12, 1); (12, 1); (24, 2); (24, 2); (12, 3); (12, 3); (12, 4); (12, 4)]%nat.
+Definition int_c (c : nat * nat) (l : str) : res Z := int_at (fst c) (snd c) l.
+Definition float_c (c : nat * nat) (l : str) : res Q := float_at (fst c) (snd c) l.
+Definition c2x (i : nat) : nat * nat := nth i adas2x_cols (0, 0)%nat.
+Definition c12 (i : nat) : nat * nat := nth i adf12_cols (0, 0)%nat.
+
 (* sv[:, index] = readvalues(file, neb, 8) for index in range(ndt) *)
 Fixpoint read_columns (ndt neb : nat) (ls : list str) : res (list (list Q) * list str) :=
   match ndt with
   | O => Ok ([], ls)
-  | Datatypes.S d => c <- read_floats neb 8 ls ;;
+  | Datatypes.S d => c <- read_floats neb adas2x_per_line ls ;;
                      r <- read_columns d neb (snd c) ;;
                      Ok (fst c :: fst r, snd r)
   end.
@@ -97,27 +116,27 @@ Definition columns_to_rows (neb : nat) (cols : list (list Q)) : list Q :=
 (* utility.py: parse_adas2x_rate (lines 23-93) *)
 Definition parse_adas2x (norm : Q) (ls : list str) : res table :=
   let '(l1, ls) := readline ls in
-  _zt <- int_at 3 5 l1 ;;
-  svref <- float_at 13 22 l1 ;;
+  _zt <- int_c (c2x 0) l1 ;;
+  svref <- float_c (c2x 1) l1 ;;
   let '(_, ls) := readline ls in
   let '(l3, ls) := readline ls in
-  neb <- int_at 1 5 l3 ;;
-  ndt <- int_at 6 10 l3 ;;
-  tref <- float_at 17 26 l3 ;;
+  neb <- int_c (c2x 2) l3 ;;
+  ndt <- int_c (c2x 3) l3 ;;
+  tref <- float_c (c2x 4) l3 ;;
   let '(_, ls) := readline ls in
-  eb <- read_floats (nat_of neb) 8 ls ;;
-  dt <- read_floats (nat_of ndt) 8 (snd eb) ;;
+  eb <- read_floats (nat_of neb) adas2x_per_line ls ;;
+  dt <- read_floats (nat_of ndt) adas2x_per_line (snd eb) ;;
   let '(_, ls) := readline (snd dt) in
   sv <- read_columns (nat_of ndt) (nat_of neb) ls ;;
   let '(_, ls) := readline (snd sv) in
   let '(l5, ls) := readline ls in
-  ntt <- int_at 1 5 l5 ;;
-  eref <- float_at 12 21 l5 ;;
-  dref <- float_at 28 37 l5 ;;
+  ntt <- int_c (c2x 5) l5 ;;
+  eref <- float_c (c2x 6) l5 ;;
+  dref <- float_c (c2x 7) l5 ;;
   let '(_, ls) := readline ls in
-  tt <- read_floats (nat_of ntt) 8 ls ;;
+  tt <- read_floats (nat_of ntt) adas2x_per_line ls ;;
   let '(_, ls) := readline (snd tt) in
-  svt <- read_floats (nat_of ntt) 8 ls ;;
+  svt <- read_floats (nat_of ntt) adas2x_per_line ls ;;
   Ok [ {| e_keys := [];
           e_shape := [zlen (fst eb); zlen (fst dt); zlen (fst tt)];
           e_vals := [ fst eb; scale per_cm3 (fst dt); fst tt;
@@ -128,35 +147,35 @@ Definition parse_adas2x (norm : Q) (ls : list str) : res table :=
    adf12.py: _parse_block (lines 71-105) and parse_adf12 (lines 24-68) *)
 Definition take {A} (n : Z) (l : list A) : list A := firstn (nat_of n) l.
 
+(* the ten data sections: read `slots` values, keep the first counts[ci] *)
+Fixpoint read_sections (secs : list (nat * nat)) (counts : list Z) (ls : list str) : res (list (list Q) * list str) :=
+  match secs with
+  | [] => Ok ([], ls)
+  | (n, ci) :: t => v <- read_floats n adf12_per_line ls ;;
+                    r <- read_sections t counts (snd v) ;;
+                    Ok (take (nth ci counts 0) (fst v) :: fst r, snd r)
+  end.
+
 Definition adf12_block (ls : list str) : res (entry * list str) :=
   let '(h, ls) := readline ls in
-  up <- int_at 38 40 h ;;
-  lo <- int_at 41 43 h ;;
-  q <- read_floats 1 6 ls ;;
-  p <- read_floats 5 6 (snd q) ;;
-  c <- read_ints 5 6 (snd p) ;;
+  up <- int_c (c12 1) h ;;
+  lo <- int_c (c12 2) h ;;
+  q <- read_floats (nth 0 adf12_head_reads O) adf12_per_line ls ;;
+  p <- read_floats (nth 1 adf12_head_reads O) adf12_per_line (snd q) ;;
+  c <- read_ints (nth 2 adf12_head_reads O) adf12_per_line (snd p) ;;
   match fst q, fst p, fst c with
-  | [qefref], [ebref; tiref; niref; zeref; bref], [nbeam; nti; ndi; nze; nb] =>
-      ener <- read_floats 24 6 (snd c) ;;
-      qener <- read_floats 24 6 (snd ener) ;;
-      tiev <- read_floats 12 6 (snd qener) ;;
-      qtiev <- read_floats 12 6 (snd tiev) ;;
-      densi <- read_floats 24 6 (snd qtiev) ;;
-      qdensi <- read_floats 24 6 (snd densi) ;;
-      zeff <- read_floats 12 6 (snd qdensi) ;;
-      qzeff <- read_floats 12 6 (snd zeff) ;;
-      bmag <- read_floats 12 6 (snd qzeff) ;;
-      qbmag <- read_floats 12 6 (snd bmag) ;;
-      let eb := take nbeam (fst ener) in let ti := take nti (fst tiev) in
-      let ni := take ndi (fst densi) in let z := take nze (fst zeff) in let b := take nb (fst bmag) in
-      Ok ({| e_keys := [KZ up; KZ lo];
-             e_shape := [zlen eb; zlen ti; zlen ni; zlen z; zlen b];
-             e_vals := [ eb; ti; scale per_cm3 ni; z; b;
-                         scale cm3 (take nbeam (fst qener)); scale cm3 (take nti (fst qtiev));
-                         scale cm3 (take ndi (fst qdensi)); scale cm3 (take nze (fst qzeff));
-                         scale cm3 (take nb (fst qbmag));
-                         [ebref; tiref; Qred (per_cm3 * niref)%Q; zeref; bref; Qred (cm3 * qefref)%Q] ] |},
-          snd qbmag)
+  | [qefref], [ebref; tiref; niref; zeref; bref], [_; _; _; _; _] =>
+      d <- read_sections adf12_sections (fst c) (snd c) ;;
+      match fst d with
+      | [eb; qeb; ti; qti; ni; qni; z; qz; b; qb] =>
+          Ok ({| e_keys := [KZ up; KZ lo];
+                 e_shape := [zlen eb; zlen ti; zlen ni; zlen z; zlen b];
+                 e_vals := [ eb; ti; scale per_cm3 ni; z; b;
+                             scale cm3 qeb; scale cm3 qti; scale cm3 qni; scale cm3 qz; scale cm3 qb;
+                             [ebref; tiref; Qred (per_cm3 * niref)%Q; zeref; bref; Qred (cm3 * qefref)%Q] ] |},
+              snd d)
+      | _ => Err EOther
+      end
   | _, _, _ => Err EOther
   end.
 
@@ -168,7 +187,7 @@ Fixpoint adf12_blocks (n : nat) (ls : list str) (acc : table) : res table :=
 
 Definition parse_adf12 (ls : list str) : res table :=
   let '(l1, ls) := readline ls in
-  cnt <- int_at 0 5 l1 ;;                 (* adf12.py:40  int(file.readline()[0:5]) : the whole I5 field *)
+  cnt <- int_c (c12 0) l1 ;;                 (* adf12.py:40  int(file.readline()[0:5]) : the whole I5 field *)
   adf12_blocks (nat_of cnt) ls [].
 
 (* ------------------------------------------------------------------------------------------------
@@ -283,8 +302,15 @@ Definition parse_adf11 (rx : rx11) (z : Z) (name : str) (ls : list str) : res ta
 
 (* install.py: _notation_adf11_adas2cherab (lines 395-421): which charge a block is stored under *)
 Inductive adf11_type := Scd | Acd | Ccd | Plt | Prb | Prc | Pls.
+Definition adf11_type_eqb (a b : adf11_type) : bool :=
+  match a, b with
+  | Scd, Scd | Acd, Acd | Ccd, Ccd | Plt, Plt | Prb, Prb | Prc, Prc | Pls, Pls => true
+  | _, _ => false
+  end.
+(* install.py: `if filetype in ["scd", "plt", "pls"]` (tied to the source by Gen/C08/Layout.v) *)
+Definition charge_corrected_types : list adf11_type := [Scd; Plt; Pls].
 Definition charge_correction (t : adf11_type) : Z :=
-  match t with Scd | Plt | Pls => -1 | _ => 0 end.
+  if existsb (adf11_type_eqb t) charge_corrected_types then -1 else 0.
 Definition cherab_charge (t : adf11_type) (z1 : Z) : Z := z1 + charge_correction t.
 (* the re-keyed table; the values stay log10 here -- 10**x and the cm^3 factors are applied by the
    comparator through an oracle for 10**x (Model/C08_Check.v) *)
@@ -482,3 +508,56 @@ Definition chunks {A} (n : nat) (l : list A) : list (list A) := chunks_aux (List
 Definition write_record (fields : list str) : str := flat_map (fun f => sp :: f) fields ++ [nl].
 Definition write_values (per_line : nat) (fields : list str) : list str :=
   map write_record (chunks per_line fields).
+
+(* ------------------------------------------------------------------------------------------------
+   install.py: the install_files dispatcher and the wiring of the six install_adf11* functions, as tables
+   (regenerated from the source into coq/Gen/C08/Layout.v; the predicates below are checked there by the kernel). *)
+Definition adf_kinds : list str :=
+  map S_ ["adf11scd"; "adf11acd"; "adf11ccd"; "adf11plt"; "adf11prb"; "adf11prc"; "adf12"; "adf15"; "adf21"; "adf22bmp"; "adf22bme"]%string.
+(* install_files: one branch per key, compared in lower case, calling one install function *)
+Definition dispatch (t : list (str * str)) (key : str) : list str :=
+  map snd (filter (fun kf => streqb (lower_str key) (fst kf)) t).
+Definition dispatch_ok (t : list (str * str)) : bool :=
+  forallb (fun kf => streqb (snd kf) (S_ "install_" ++ fst kf)) t
+  && forallb (fun k => Nat.eqb (List.length (filter (fun kf => streqb k (fst kf)) t)) 1) adf_kinds
+  && Nat.eqb (List.length t) (List.length adf_kinds).
+(* which repository table an ADF11 type belongs to *)
+Definition adf11_updates : list (str * str) :=
+  [(S_ "scd", S_ "update_ionisation_rates"); (S_ "acd", S_ "update_recombination_rates");
+   (S_ "ccd", S_ "update_thermal_cx_rates"); (S_ "plt", S_ "update_line_power_rates");
+   (S_ "prb", S_ "update_continuum_power_rates"); (S_ "prc", S_ "update_cx_power_rates")].
+(* (function, file type handed to _notation_adf11_adas2cherab, repository.update_* called) *)
+Definition wiring_ok (t : list (str * (str * str))) : bool :=
+  forallb (fun w => let '(fn, (ft, upd)) := w in
+                    streqb fn (S_ "install_adf11" ++ ft)
+                    && existsb (fun p => streqb (fst p) ft && streqb (snd p) upd) adf11_updates) t
+  && forallb (fun p => Nat.eqb (List.length (filter (fun w => streqb (fst (snd w)) (fst p)) t)) 1) adf11_updates
+  && Nat.eqb (List.length t) 6.
+Definition type_of_name (s : str) : option adf11_type :=
+  if streqb s (S_ "scd") then Some Scd else if streqb s (S_ "acd") then Some Acd else if streqb s (S_ "ccd") then Some Ccd
+  else if streqb s (S_ "plt") then Some Plt else if streqb s (S_ "prb") then Some Prb else if streqb s (S_ "prc") then Some Prc
+  else if streqb s (S_ "pls") then Some Pls else None.
+
+(* ------------------------------------------------------------------------------------------------
+   install.py: _thermalcx_adf15_2dto3d_converter (lines 424-444): a thermal-CX block of an ADF15 file (2-D in ne, te) is
+   stored as a 3-D table over two donor temperatures with the same values, donor hydrogen 0, receiver charge + 1 *)
+Definition thermalcx_td : list Q := [1 # 100; 10000 # 1].
+Definition thermalcx_3d (charge : Z) (e : entry) : option entry :=
+  match e_keys e, e_shape e, e_vals e with
+  | KS cls :: tr, [n; t], [ne; te; rate] =>
+      if streqb cls (S_ "thermalcx") then
+        Some {| e_keys := KS (S_ "hydrogen") :: KZ 0 :: KZ (charge + 1) :: tr;
+                e_shape := [n; t; zlen thermalcx_td];
+                e_vals := [ne; te; thermalcx_td; flat_map (fun r => map (fun _ => r) thermalcx_td) rate] |}
+      else None
+  | _, _, _ => None
+  end.
+Definition thermalcx_table (charge : Z) (t : table) : table :=
+  flat_map (fun e => match thermalcx_3d charge e with Some x => [x] | None => [] end) t.
+
+(* install.py: _locate_adas_file (lines 352-385) as a decision: where the file is taken from *)
+Inductive located := InAdasPath | InCache | Download | NotLocated.
+Definition locate (adas_path_given in_adas_path download in_cache : bool) : located :=
+  if (adas_path_given && in_adas_path)%bool then InAdasPath
+  else if download then (if in_cache then InCache else Download)
+  else NotLocated.                         (* the install_* functions turn this into ValueError *)
